@@ -17,7 +17,7 @@
 using namespace OpenVolumeMesh::IO;
 
 static const uint64_t NOFAULT = ~0ull;
-enum { BUFCAP = 1024 };
+enum { BUFCAP = 512 };
 static uint8_t g_buf[BUFCAP];
 
 struct FileDesc { const unsigned char *bytes, *cls; unsigned len, nchunks; const unsigned short *chunk_off, *chunk_maxh, *chunk_limit; const unsigned char *chunk_kind; };
